@@ -35,9 +35,11 @@ import (
 func init() {
 	RegisterSub("C17", "history", RunC17History)
 	RegisterSub("C17", "crossbuild", RunC17CrossBuild)
+	RegisterSub("C17", "buffers", RunC17Buffers)
+	workers["c17buf"] = c17BufWorker
 }
 
-const c17Rule = "history: catalogue struct types x random rows x random writer configuration (gen.RandWriterCfg + bloom filters, deferred blooms, key/value metadata, declared sorting columns, forced dictionary overflow) x instance history: the file written by an instance that was Reset after {abandoned, abandoned after row-by-row writes, flushed, closed, closed empty, failed sink, two generations, reset mid-file, random op sequence, SetKeyValueMetadata} over OTHER rows (for SortingWriter + DropDuplicatedRows also over copies of the row that sorts first in the new content, run sizes 1 / random / > rows) must equal byte-for-byte the file of a fresh instance; instances GenericWriter, Writer, SortingWriter, GenericWriter driven through WriteRowGroup only (rows handed over as an unsorted GenericBuffer / a sorted GenericBuffer declaring sorting columns / the row groups of a file written with the same options / with default options, drawn independently for the earlier content and the content under test; the writer mostly without sorting configuration of its own), GenericBuffer/Buffer.Reset -> WriteRowGroup; catalogue = shared catalogue + GEOMETRY/GEOGRAPHY types (gen.GeoCatalog: WKB values of layouts XY/XYZ/XYM/XYZM drawn per row set, empty geometries, NaN coordinates, non-WKB bytes); repeated fresh writes on the same and on 3 other goroutines, and with the key/value options permuted; non-trivial = non-empty rows and a prior history that wrote rows. crossbuild: per catalogue type seeded (rows, config, write path) cases and 30k/400k encoder inputs (hybrid RLE int32/levels, delta binary packed, byte stream split), big-page files (one PLAIN column per numeric kind, pages filled to the default 256 KiB target and beyond, values across 2^31 / 2^63, NaN, -0.0) and Page.Bounds of pages at the kernel-switch lengths 32112..131071(..262144) (int32, int64, uint32, uint64, float, double, and 16-byte big-endian values with few distinct high halves at lengths 3..32113) whose sha256 / output bytes the asm and purego builds must agree on (digests exchanged through .build/out/C17-digests-<variant>.json); non-trivial = more than one row / at least 8 values. mirror (L2): a real Writer under a random history (first sink failing around the 4-byte file header and anywhere) vs the Lean mirror (reset.run), observation compared after every step; all cases non-trivial. repr (L1): catalogue types x random rows x the same rows RESPELLED (equal values in another memory layout: empty strings with a non-nil data pointer, strings / []byte at odd offsets inside larger arrays, slices with spare capacity, re-allocated pointers) x 4 (thorough: 6) write paths: byte-identical files; non-trivial = at least one value respelled; a third of the cross-build corpus is respelled too. hist (L1+L2): accumulateAndAppendPageLevelHistogram on slices with k earlier pages and a capacity of need-1, need, need+1, 2x, ... whose spare part holds zeros / earlier counts / -1, levels of 0..200 values in runs: appended block = the counts of the page (L1) and column histogram, slice, spare capacity = the Lean mirror ResetHist.appendPage (L2); real Writers of every catalogue type with a nullable or repeated column, abandoned mid row group / flushed / closed over other rows, then Reset (histogram fields and the arrays behind them before/after vs ResetHist.LevelHist.reset), then the rows in 1..3 row groups: every chunk's SizeStatistics / ColumnIndex level histograms vs the spec (LevelStats.chunkHists) of the levels decoded from its own pages; non-trivial = a page with levels appended to a slice with spare capacity / every writer case. slots (L2): per catalogue type a GenericWriter with default options (one in four declaring sorting columns) x 1..8 ops {WriteRowGroup of a 1..5-row GenericBuffer declaring 0..2 sorting columns (sorted), Close+Reset}: the row groups the footer of the last file lists (column chunks, sorting_columns absent / empty / entries) vs the Lean mirror slots.run; non-trivial = at least one Reset and two row groups."
+const c17Rule = "history: catalogue struct types x random rows x random writer configuration (gen.RandWriterCfg + bloom filters, deferred blooms, key/value metadata, declared sorting columns, forced dictionary overflow) x instance history: the file written by an instance that was Reset after {abandoned, abandoned after row-by-row writes, flushed, closed, closed empty, failed sink, two generations, reset mid-file, random op sequence, SetKeyValueMetadata} over OTHER rows (for SortingWriter + DropDuplicatedRows also over copies of the row that sorts first in the new content, run sizes 1 / random / > rows) must equal byte-for-byte the file of a fresh instance; instances GenericWriter, Writer, SortingWriter, GenericWriter driven through WriteRowGroup only (rows handed over as an unsorted GenericBuffer / a sorted GenericBuffer declaring sorting columns / the row groups of a file written with the same options / with default options, drawn independently for the earlier content and the content under test; the writer mostly without sorting configuration of its own), catalogue = shared catalogue + GEOMETRY/GEOGRAPHY types (gen.GeoCatalog: WKB values of layouts XY/XYZ/XYM/XYZM drawn per row set, empty geometries, NaN coordinates, non-WKB bytes); repeated fresh writes on the same and on 3 other goroutines, and with the key/value options permuted; non-trivial = non-empty rows and a prior history that wrote rows. buffers (L1, in worker subprocesses: a case that takes the process down is a failure carrying the case): the same catalogue, rows and configurations, GenericBuffer/Buffer under 2 (thorough 4) buffer histories each: 1..3 earlier generations {rows [lo,hi) of the other content; permuted by sort.Sort when sorting columns are declared, else by explicit Swap calls in 2 cases of 3; READ through a discarded WriteRowGroup / Rows() fully or half / the Pages() of all column chunks, of the first, twice / not at all; Reset} then the rows, permuted the same way as on the fresh instance, in 1 case of 4 read once before, -> WriteRowGroup (and: the file written after such a read equals the file written without it); non-trivial as for history. crossbuild: per catalogue type seeded (rows, config, write path) cases and 30k/400k encoder inputs (hybrid RLE int32/levels, delta binary packed, byte stream split), big-page files (one PLAIN column per numeric kind, pages filled to the default 256 KiB target and beyond, values across 2^31 / 2^63, NaN, -0.0) and Page.Bounds of pages at the kernel-switch lengths 32112..131071(..262144) (int32, int64, uint32, uint64, float, double, and 16-byte big-endian values with few distinct high halves at lengths 3..32113) whose sha256 / output bytes the asm and purego builds must agree on (digests exchanged through .build/out/C17-digests-<variant>.json); non-trivial = more than one row / at least 8 values. mirror (L2): a real Writer under a random history (first sink failing around the 4-byte file header and anywhere) vs the Lean mirror (reset.run), observation compared after every step; all cases non-trivial. repr (L1): catalogue types x random rows x the same rows RESPELLED (equal values in another memory layout: empty strings with a non-nil data pointer, strings / []byte at odd offsets inside larger arrays, slices with spare capacity, re-allocated pointers) x 4 (thorough: 6) write paths: byte-identical files; non-trivial = at least one value respelled; a third of the cross-build corpus is respelled too. hist (L1+L2): accumulateAndAppendPageLevelHistogram on slices with k earlier pages and a capacity of need-1, need, need+1, 2x, ... whose spare part holds zeros / earlier counts / -1, levels of 0..200 values in runs: appended block = the counts of the page (L1) and column histogram, slice, spare capacity = the Lean mirror ResetHist.appendPage (L2); real Writers of every catalogue type with a nullable or repeated column, abandoned mid row group / flushed / closed over other rows, then Reset (histogram fields and the arrays behind them before/after vs ResetHist.LevelHist.reset), then the rows in 1..3 row groups: every chunk's SizeStatistics / ColumnIndex level histograms vs the spec (LevelStats.chunkHists) of the levels decoded from its own pages; non-trivial = a page with levels appended to a slice with spare capacity / every writer case. slots (L2): per catalogue type a GenericWriter with default options (one in four declaring sorting columns) x 1..8 ops {WriteRowGroup of a 1..5-row GenericBuffer declaring 0..2 sorting columns (sorted), Close+Reset}: the row groups the footer of the last file lists (column chunks, sorting_columns absent / empty / entries) vs the Lean mirror slots.run; non-trivial = at least one Reset and two row groups."
 
 // ---------------------------------------------------------------- configuration
 
@@ -526,29 +528,168 @@ func c17Histories(r *rand.Rand, nPrior int, allowKV bool) []c17History {
 
 // ---------------------------------------------------------------- buffers
 
-// c17BufferFile: rows -> buffer (fresh, or reused through Reset after holding the prior rows)
-// -> sort when sorting columns are configured -> WriteRowGroup into a fresh writer -> Close.
-func c17BufferFile(kind string, e *gen.Entry, cfg *c17Cfg, reuse bool, prior, rows reflect.Value) (file []byte, err error) {
+// A buffer history: what happened to a Buffer / GenericBuffer instance before the final Reset, and
+// how the content under test is permuted. Buffers are containers of the reuse property like
+// writers: everything a buffer keeps across Reset (column buffers, the scratch columns Page()
+// materialises a permuted column into, row offsets, dictionaries) is state that must not show.
+//
+// Each earlier generation: fill rows [lo,hi) of the prior content, permute them (sort.Sort when
+// sorting columns are declared, else explicit Swap calls), READ the buffer in one of the ways a
+// caller can (that is what materialises pages, and with them the scratch state of permuted
+// columns), Reset. The content under test: fill, permute (sort / the same Swap list for the fresh
+// and the reused instance), optionally read once before the row group is written.
+type c17BufGen struct {
+	lo, hi int
+	swaps  [][2]int // explicit Swap(i, j) calls (buffers without sorting columns)
+	read   string   // none | write-row-group | rows | rows-partial | pages | pages-first | pages-twice
+}
+
+type c17BufHist struct {
+	gens       []c17BufGen
+	finalSwaps [][2]int
+	readFirst  string // how the content under test is read once BEFORE the row group is written ("" = not)
+}
+
+var c17BufReads = []string{"none", "write-row-group", "write-row-group", "rows", "rows-partial", "pages", "pages-first", "pages-twice"}
+
+func c17RandSwaps(r *rand.Rand, n int) (out [][2]int) {
+	if n < 2 {
+		return nil
+	}
+	for k := 1 + r.Intn(2*n); k > 0; k-- {
+		out = append(out, [2]int{r.Intn(n), r.Intn(n)})
+	}
+	return out
+}
+
+// c17RandBufHist draws the history; sorted = the buffer declares sorting columns (then sort.Sort
+// permutes, otherwise explicit swaps do in two cases out of three).
+func c17RandBufHist(r *rand.Rand, nPrior, n int, sorted bool) *c17BufHist {
+	h := &c17BufHist{}
+	for g := []int{1, 1, 2, 3}[r.Intn(4)]; g > 0; g-- {
+		lo := r.Intn(nPrior)
+		if r.Intn(2) == 0 {
+			lo = 0
+		}
+		gn := c17BufGen{lo: lo, hi: lo + 1 + r.Intn(nPrior-lo), read: c17BufReads[r.Intn(len(c17BufReads))]}
+		if !sorted && r.Intn(3) > 0 {
+			gn.swaps = c17RandSwaps(r, gn.hi-gn.lo)
+		}
+		h.gens = append(h.gens, gn)
+	}
+	if !sorted && r.Intn(3) > 0 {
+		h.finalSwaps = c17RandSwaps(r, n)
+	}
+	if r.Intn(4) == 0 {
+		h.readFirst = c17BufReads[1+r.Intn(len(c17BufReads)-1)]
+	}
+	return h
+}
+
+func (h *c17BufHist) String() string {
+	var sb strings.Builder
+	for _, g := range h.gens {
+		fmt.Fprintf(&sb, "write prior rows [%d,%d); ", g.lo, g.hi)
+		if g.swaps != nil {
+			fmt.Fprintf(&sb, "Swap%v; ", g.swaps)
+		} else {
+			sb.WriteString("sort.Sort when sorting columns are declared; ")
+		}
+		fmt.Fprintf(&sb, "read=%s; Reset; ", g.read)
+	}
+	sb.WriteString("write rows; ")
+	if h.finalSwaps != nil {
+		fmt.Fprintf(&sb, "Swap%v; ", h.finalSwaps)
+	} else {
+		sb.WriteString("sort.Sort when sorting columns are declared; ")
+	}
+	if h.readFirst != "" {
+		fmt.Fprintf(&sb, "read=%s; ", h.readFirst)
+	}
+	sb.WriteString("WriteRowGroup")
+	return sb.String()
+}
+
+// c17ReadBuffer reads a filled buffer the way `how` names; errors and panics are returned.
+func c17ReadBuffer(how string, e *gen.Entry, cfg *c17Cfg, rg parquet.RowGroup) error {
+	return c17Guard(func() error {
+		switch how {
+		case "write-row-group":
+			w := e.NewTypedWriter(io.Discard, cfg.opts()...)
+			if _, err := w.WriteRowGroup(rg); err != nil {
+				return err
+			}
+			return w.Close()
+		case "rows", "rows-partial":
+			rr := rg.Rows()
+			defer rr.Close()
+			buf := make([]parquet.Row, 7)
+			for left := rg.NumRows(); ; {
+				if how == "rows-partial" && left <= rg.NumRows()/2 {
+					return nil
+				}
+				n, err := rr.ReadRows(buf)
+				left -= int64(n)
+				if err == io.EOF || (n == 0 && err == nil) {
+					return nil
+				}
+				if err != nil {
+					return err
+				}
+			}
+		case "pages", "pages-first", "pages-twice":
+			for pass := 0; pass < 2; pass++ {
+				for i, cc := range rg.ColumnChunks() {
+					if how == "pages-first" && i > 0 {
+						break
+					}
+					pages := cc.Pages()
+					for {
+						p, err := pages.ReadPage()
+						if err != nil {
+							break
+						}
+						_ = p.NumValues()
+						parquet.Release(p)
+					}
+					pages.Close()
+				}
+				if how != "pages-twice" {
+					break
+				}
+			}
+		}
+		return nil
+	})
+}
+
+// c17BufferFile: rows -> buffer (fresh when h == nil or reuse is false, else reused through Reset
+// after the generations of h) -> permuted (sort.Sort when sorting columns are configured, the
+// swaps of h otherwise) -> WriteRowGroup into a fresh writer -> Close.
+func c17BufferFile(kind string, e *gen.Entry, cfg *c17Cfg, reuse bool, h *c17BufHist, prior, rows reflect.Value) (file []byte, err error, priorErrs []string) {
+	if h == nil {
+		h = &c17BufHist{}
+	}
 	err = c17Guard(func() error {
 		var ropts []parquet.RowGroupOption
 		if len(cfg.sorting) > 0 {
 			ropts = append(ropts, parquet.SortingRowGroupConfig(parquet.SortingColumns(c17SortingColumns(cfg.sorting)...)))
 		}
 		var rg parquet.RowGroup
-		var fill func(rs reflect.Value) error
+		var fill func(rs reflect.Value, permuted bool) error
 		var srt sort.Interface
 		var reset func()
 		if kind == "generic-buffer" {
 			b := e.NewTypedBuffer(ropts...)
 			rg, srt, reset = b, b, b.Reset
-			fill = func(rs reflect.Value) error {
+			fill = func(rs reflect.Value, permuted bool) error {
 				if rs.Len() == 0 {
 					return nil
 				}
-				if len(cfg.sorting) > 0 {
+				if permuted {
 					// One row per call: on the asm build a batch write into an optional column
 					// records wrong row indexes (broadcastRangeInt32AVX2 tail, finding F14 of C10)
-					// and sorting such a buffer panics or never returns. C10 owns that defect;
+					// and permuting such a buffer panics or never returns. C10 owns that defect;
 					// here it must not take the check down.
 					for i := 0; i < rs.Len(); i++ {
 						if _, err := b.Write(rs.Slice(i, i+1).Interface()); err != nil {
@@ -563,7 +704,7 @@ func c17BufferFile(kind string, e *gen.Entry, cfg *c17Cfg, reuse bool, prior, ro
 		} else {
 			b := parquet.NewBuffer(append([]parquet.RowGroupOption{e.Schema}, ropts...)...)
 			rg, srt, reset = b, b, b.Reset
-			fill = func(rs reflect.Value) error {
+			fill = func(rs reflect.Value, permuted bool) error {
 				for i := 0; i < rs.Len(); i++ {
 					if err := b.Write(rs.Index(i).Addr().Interface()); err != nil {
 						return err
@@ -572,20 +713,36 @@ func c17BufferFile(kind string, e *gen.Entry, cfg *c17Cfg, reuse bool, prior, ro
 				return nil
 			}
 		}
-		if reuse {
-			if err := fill(prior); err != nil {
-				return fmt.Errorf("filling the buffer with the prior rows: %w", err)
-			}
+		permute := func(swaps [][2]int) {
 			if len(cfg.sorting) > 0 {
 				sort.Sort(srt)
 			}
-			reset()
+			for _, s := range swaps {
+				srt.Swap(s[0], s[1])
+			}
 		}
-		if err := fill(rows); err != nil {
+		if reuse {
+			for gi, g := range h.gens {
+				if err := fill(prior.Slice(g.lo, g.hi), len(cfg.sorting) > 0 || g.swaps != nil); err != nil {
+					return fmt.Errorf("filling the buffer with the prior rows: %w", err)
+				}
+				permute(g.swaps)
+				if err := c17ReadBuffer(g.read, e, cfg, rg); err != nil {
+					// an earlier generation that cannot be read is not this check's business
+					// (histogram entry); the instance is Reset and must still behave like a fresh one
+					priorErrs = append(priorErrs, fmt.Sprintf("generation %d read=%s: %s", gi, g.read, errClass(err)))
+				}
+				reset()
+			}
+		}
+		if err := fill(rows, len(cfg.sorting) > 0 || h.finalSwaps != nil); err != nil {
 			return err
 		}
-		if len(cfg.sorting) > 0 {
-			sort.Sort(srt)
+		permute(h.finalSwaps)
+		if h.readFirst != "" && rows.Len() > 0 {
+			if err := c17ReadBuffer(h.readFirst, e, cfg, rg); err != nil {
+				return fmt.Errorf("reading the buffer (%s) before WriteRowGroup: %w", h.readFirst, err)
+			}
 		}
 		out := new(bytes.Buffer)
 		w := e.NewTypedWriter(out, cfg.opts()...)
@@ -600,7 +757,7 @@ func c17BufferFile(kind string, e *gen.Entry, cfg *c17Cfg, reuse bool, prior, ro
 		file = out.Bytes()
 		return nil
 	})
-	return file, err
+	return file, err, priorErrs
 }
 
 // ---------------------------------------------------------------- history sub-check
@@ -653,36 +810,9 @@ func RunC17History(ctx *core.Ctx) {
 	wg.Wait()
 }
 
-func c17HistoryCase(ctx *core.Ctx, e *gen.Entry, r *rand.Rand, sample bool) {
-	ns, nps := []int{1, 2, 3, 9, 33, 64, 65, 100}, []int{1, 2, 8, 50, 130}
-	if ctx.Thorough() {
-		ns, nps = append(ns, 257, 300), append(nps, 400)
-	}
-	n, np := ns[r.Intn(len(ns))], nps[r.Intn(len(nps))]
-	small := r.Intn(2) == 0
-	rows := c17GenRows(r, e, n, small)
-	prior := c17GenRows(r, e, np, !small) // the other value domain: overflows tiny dictionaries, other null runs
-	cfg := c17RandCfg(r, e)
-	batches := c01Batches(r, n)
-	sortRows := int64(1 + r.Intn(n+2))
-	texts := c17RowTexts(e, rows)
-	detail := func(extra map[string]any) map[string]any {
-		m := map[string]any{"type": e.Name, "config": cfg.desc, "batches": batches, "rows": texts, "prior_rows": np,
-			"prior_profile_small_domain": !small, "sort_row_count": sortRows, "variant": ctx.Variant}
-		for k, v := range extra {
-			m[k] = v
-		}
-		return m
-	}
-	ctx.Case(e.Name+"|"+cfg.desc+"|"+strings.Join(texts, "|")+fmt.Sprint(batches, np), n > 0 && np > 0)
-	ctx.Hist("rows", fmt.Sprint(n))
-	ctx.Hist("prior-rows", fmt.Sprint(np))
-	ctx.Hist("codec", cfg.base.Codec)
-	ctx.Hist("bloom-columns", fmt.Sprint(len(cfg.bloom)))
-	if sample {
-		ctx.Sample(detail(nil))
-	}
-	compare := func(what, kind string, ref []byte, got []byte, err error, extra map[string]any) {
+// c17Comparer: the oracle of the history and buffers sub-checks. ref = the file of a fresh instance.
+func c17Comparer(ctx *core.Ctx, detail func(map[string]any) map[string]any) func(what, kind string, ref []byte, got []byte, err error, extra map[string]any) {
+	return func(what, kind string, ref []byte, got []byte, err error, extra map[string]any) {
 		extra["instance"] = kind
 		if err != nil {
 			ctx.Fail("L1", what+" second-file-"+errClass(err), fmt.Sprintf("%s: a fresh %s writes the rows, this instance fails: %v", what, kind, err), detail(extra))
@@ -713,6 +843,38 @@ func c17HistoryCase(ctx *core.Ctx, e *gen.Entry, r *rand.Rand, sample bool) {
 			ctx.Fail("L1", what+" "+class, fmt.Sprintf("%s: file differs from a fresh %s's file, first difference: %s at %s", what, kind, class, label), detail(extra))
 		}
 	}
+}
+
+func c17HistoryCase(ctx *core.Ctx, e *gen.Entry, r *rand.Rand, sample bool) {
+	ns, nps := []int{1, 2, 3, 9, 33, 64, 65, 100}, []int{1, 2, 8, 50, 130}
+	if ctx.Thorough() {
+		ns, nps = append(ns, 257, 300), append(nps, 400)
+	}
+	n, np := ns[r.Intn(len(ns))], nps[r.Intn(len(nps))]
+	small := r.Intn(2) == 0
+	rows := c17GenRows(r, e, n, small)
+	prior := c17GenRows(r, e, np, !small) // the other value domain: overflows tiny dictionaries, other null runs
+	cfg := c17RandCfg(r, e)
+	batches := c01Batches(r, n)
+	sortRows := int64(1 + r.Intn(n+2))
+	texts := c17RowTexts(e, rows)
+	detail := func(extra map[string]any) map[string]any {
+		m := map[string]any{"type": e.Name, "config": cfg.desc, "batches": batches, "rows": texts, "prior_rows": np,
+			"prior_profile_small_domain": !small, "sort_row_count": sortRows, "variant": ctx.Variant}
+		for k, v := range extra {
+			m[k] = v
+		}
+		return m
+	}
+	ctx.Case(e.Name+"|"+cfg.desc+"|"+strings.Join(texts, "|")+fmt.Sprint(batches, np), n > 0 && np > 0)
+	ctx.Hist("rows", fmt.Sprint(n))
+	ctx.Hist("prior-rows", fmt.Sprint(np))
+	ctx.Hist("codec", cfg.base.Codec)
+	ctx.Hist("bloom-columns", fmt.Sprint(len(cfg.bloom)))
+	if sample {
+		ctx.Sample(detail(nil))
+	}
+	compare := c17Comparer(ctx, detail)
 	for _, kind := range []string{c17Generic, c17Refl, c17Sorting, c17RG} {
 		kcfg := cfg
 		kbatches := batches
@@ -824,16 +986,6 @@ func c17HistoryCase(ctx *core.Ctx, e *gen.Entry, r *rand.Rand, sample bool) {
 			}
 			compare("reuse-after-reset", kind, want, got, err, map[string]any{"history": h.String(), "config": kcfg.desc})
 		}
-	}
-	for _, kind := range []string{"generic-buffer", "buffer"} {
-		ref, err := c17BufferFile(kind, e, cfg, false, prior, rows)
-		if err != nil {
-			ctx.Hist("reference-write-error", kind+" "+errClass(err))
-			continue
-		}
-		got, err := c17BufferFile(kind, e, cfg, true, prior, rows)
-		ctx.Hist("history", kind+" reset-after-prior-rows")
-		compare("buffer-reuse-after-reset", kind, ref, got, err, map[string]any{"history": "write prior rows; sort; Reset; write rows; sort; WriteRowGroup"})
 	}
 }
 
@@ -952,7 +1104,8 @@ func (c *c17XCase) write() ([]byte, error) {
 		f, err, _ := c17Run(c.path, c.e, c.cfg, c.sortRow, nil, c.rows, c.rows, c.batches)
 		return f, err
 	default:
-		return c17BufferFile("generic-buffer", c.e, c.cfg, false, c.rows, c.rows)
+		f, err, _ := c17BufferFile("generic-buffer", c.e, c.cfg, false, nil, c.rows, c.rows)
+		return f, err
 	}
 }
 
